@@ -136,6 +136,37 @@ def F_frozen_new(ctx, lib):
     ctx.ob(rule, "writers-census", n >= 4, expected=">= 4 uses examined", found=n, kind="floor", nontrivial=False)
 
 
+LOSSY = ("take", "skip", "step_by", "filter", "filter_map", "skip_while", "take_while", "nth", "last", "find", "position")
+
+
+def lossy_adaptors(v):
+    """names of the element-dropping iterator adaptors on the way from the indexed prefix to the loop item (the `find` that located the carry position is part of the
+    range bound, not of the iteration, and is not counted)"""
+    res = []
+
+    def visit(n, in_bound):
+        if not isinstance(n, tuple) or not n:
+            return
+        if n[0] == "adt" and (str(n[1]).endswith("ops::Range") or str(n[1]).endswith("ops::RangeTo")):
+            return      # bounds of the prefix
+        if n[0] == "app" and flow.last(str(n[1])) in LOSSY:
+            nm = flow.last(str(n[1]))
+            res.append(nm)
+            for k, a in enumerate(n[2]):
+                if not (nm == "take" and k == 1):      # the count argument of take is a bound
+                    visit(a, in_bound)
+            return
+        for a in n[1:]:
+            if isinstance(a, tuple):
+                if a and isinstance(a[0], tuple):
+                    for x in a:
+                        visit(x, in_bound)
+                else:
+                    visit(a, in_bound)
+    visit(v, False)
+    return res
+
+
 def strip_calls(e):
     """drop clone/into/to_vec/collect style copies"""
     while e is not None and e[0] == "call" and flow.last(e[2]) in ("clone", "into", "to_vec", "to_owned", "from") and e[3]:
@@ -299,7 +330,7 @@ def three_decrement(ctx, lib):
             v2 = deep_strip(s_[1])
             # reset of earlier digits: items of vector[0..cur] with cur = index of the decremented digit
             rng = symx.find_all(t2, lambda n: n[0] == "adt" and n[1].endswith("ops::Range"))
-            okr = v2 == vint(2) and len(rng) >= 1 and symx.adt_get(rng[0], "start") == vint(0)
+            okr = v2 == vint(2) and len(rng) >= 1 and symx.adt_get(rng[0], "start") == vint(0) and not lossy_adaptors(t2)
             if okr:
                 end = deep_strip(symx.adt_get(rng[0], "end"))
                 # end = the enumerate index of the decremented digit (same item)
@@ -390,8 +421,12 @@ def two_next(ctx, lib):
             if ok1 and rng:
                 if rng[0][1].endswith("ops::Range") and symx.adt_get(rng[0], "start") != vint(0):
                     ok1 = False
+                if lossy_adaptors(t1):
+                    ok1 = False     # every position of the prefix is reset: nothing may be taken, skipped or filtered out of indexes[0..pos]
                 end = deep_strip(symx.adt_get(rng[0], "end"))
             elif ok1 and tk:
+                if lossy_adaptors(t1) != ["take"]:
+                    ok1 = False
                 end = deep_strip(tk[0][2][1])
             else:
                 ok1 = False
